@@ -84,7 +84,7 @@ func (closerSuite) Run(h map[string]string, ops []string) []string {
 	var callbacks []func()
 	cfg := hystrix.ConfigureCloser{SleepWindow: time.Duration(getI(h, "sleep", 5_000_000_000)), HalfOpenAttempts: getI(h, "half", 1),
 		RequiredConcurrentSuccessful: getI(h, "req", 1),
-		AfterFunc: func(d time.Duration, f func()) *time.Timer { callbacks = append(callbacks, f); return nil }}
+		AfterFunc: func(d time.Duration, f func()) *time.Timer { callbacks = append(callbacks, f); return sleepingTimer() }}
 	cl := hystrix.CloserFactory(cfg)().(*hystrix.Closer)
 	ctx := context.Background()
 	out := make([]string, len(ops))
